@@ -154,7 +154,19 @@ func scC07(r *Run) {
 	}
 
 	// phase 1: writes and requests up to the Close point
+	// at rest nobody may hold the muxer mutex: every hook and every blocking point is outside its critical sections
+	lockLeaked := func(when string) bool {
+		if gohlslib.VerifMutexFree(w.m) {
+			return false
+		}
+		r.Fail("lock-left-held", when, "with every goroutine at rest (%s) the muxer's mutex is held: a handler returned without releasing it", when)
+		w.abandon()
+		return true
+	}
 	for w.next < closeAfter && r.Stats.Steps < 2000 && !r.Failed() {
+		if lockLeaked("before-close") {
+			return
+		}
 		var acts []Action
 		if w.writer.Idle() && w.next < len(w.script) {
 			acts = append(acts, Action{"write", 10, func() {
@@ -210,6 +222,9 @@ func scC07(r *Run) {
 	w.closed = true
 	w.writer.Start(func() { w.m.Close() })
 	for !w.writer.Idle() && r.Stats.Steps < 4000 {
+		if lockLeaked("during-close") {
+			return
+		}
 		var acts []Action
 		acts = append(acts, resumeActions(6)...)
 		if len(clients) < maxClients+2 {
